@@ -144,6 +144,16 @@ def showE : E → String
   | .tooMany => "panic"
   | .noCpiArray => "err:nocpiarray"
 
+/-! ### tuple-struct instructions -/
+def parseAnn (s : String) : Option (List Phase) :=
+  if s == "-" then some [] else
+  s.toList.mapM (fun c =>
+    if c == 'd' then some Phase.decode else if c == 'v' then some Phase.validate
+    else if c == 'r' then some Phase.run else if c == 'c' then some Phase.cleanup else none)
+
+def showPhase (vs : List (List Nat)) : String :=
+  if vs.isEmpty then "-" else "+".intercalate (vs.map (fun v => ".".intercalate (v.map toString)))
+
 /-! ### state -/
 structure St where
   table : List (List Nat) := []
@@ -187,6 +197,21 @@ def step (st : St) (toks : List String) : St × String :=
          s!"ok min={minLen s} len={accountLen s} copt={showBool (containsOption s)}")
       else bad
     | _, _ => bad
+  | ["tix", idx, _name, selfAnn, anns, vals, k] =>
+    match smallDec idx 3, parseAnn selfAnn, (anns.splitOn ",").mapM parseAnn,
+          (vals.splitOn ",").mapM (fun v => (smallDec v 3).bind (fun x => if x < 256 then some x else none)),
+          smallDec k 2 with
+    | some i, some sa, some as, some vs, some k =>
+      if i < st.table.length ∧ as.length = vs.length ∧ k ≤ 20 then
+        let data := ixData (st.table.getD i []) vs
+        let accts : List Acct := (List.range k).map (fun j => { key := keyOf s!"k{j + 1}", signer := false, writable := false })
+        match entryTuple st.table i pid sa as data accts with
+        | .error .badData => (st, "err:data")
+        | .error (.decode e) => (st, showE e)
+        | .ok o =>
+          (st, s!"ok {toHex data} used={o.used} rem={o.rem} d={o.decoded} v={showPhase o.validate} r={showPhase o.run} c={showPhase o.cleanup}")
+      else bad
+    | _, _, _, _, _ => bad
   | ["client", val] =>
     match st.shape, (readSx val).bind parseClient with
     | some s, some v =>
